@@ -717,6 +717,9 @@ class Generator:
         if 'noderive' in kv:
             text, k = re.subn(r'(?m)^[ \t]*#\[derive\([^\]]*\)\][ \t]*$', '', text)
             self._count('R5-derive', k)
+        if 'pub' in kv and not re.match(r'\s*pub\b', text):
+            text = 'pub ' + text      # visibility only (R5)
+            self._count('R5')
         pre = ''
         if 'reject_recursive' in kv:
             pre = '#[verifier::reject_recursive_types(%s)]\n' % kv['reject_recursive']
